@@ -435,6 +435,10 @@ def snakecase_to_camelcase(value: str) -> str:
     if not value:
         return value
 
+    # Names made of underscores only have nothing to convert.
+    if not value.strip("_"):
+        return value
+
     # Regex matches everything.
     captured = cast(Match[str], EXTRACT_UNDERSCORES_RE.match(value))
     value = value.strip("_")
@@ -445,7 +449,7 @@ def snakecase_to_camelcase(value: str) -> str:
         leading,
         head[0].lower(),
         head[1:],
-        "".join(s.title() for s in tail),
+        "".join(s[:1].upper() + s[1:] for s in tail),
         trailing,
     )
 
